@@ -50,6 +50,9 @@ var replayers = map[string]func(*run, *fovc.Obligation, string) *replayResult{
 // from a small-model query (buffer length bounded) with get-value.
 func replayFcScanner(r *run, o *fovc.Obligation, model string) *replayResult {
 	fn := strings.TrimPrefix(o.Func, "main.")
+	if fn == "transpileOne" || fn == "transpileFiles" {
+		return replayDriver(r, o, model)
+	}
 	known := map[string]bool{"scanSpaceToken": true, "scanIdentifierToken": true, "scanIntImmToken": true, "scanStringLiteralToken": true, "scanRawStringLiteralToken": true,
 		"scanTokenAt": true, "nextToken": true, "searchForward": true, "isStringAt": true, "reinterpretEscape": true, "PosToFilePosInfo": true, "ParseSInterP": true, "newTkz": true, "tkzNext": true}
 	if !known[fn] {
